@@ -364,6 +364,18 @@ theorem policy_enforced (d : Dir) (m : Maps) (q : QoS) (a b c e : UInt8) (hq : q
     simp only [hkey, hlk, hdec]
     cases (check (policyBucket d q) now len).2 <;> simp
 
+/-- **The last definition wins, for every field.**  After `AddPolicy p` — whatever the table held under that name,
+    whether or not an earlier definition differs from `p` in a single field only (e.g. only the burst) —
+    `GetPolicy p.name` is `p`; other names are untouched; `RemovePolicy` then `AddPolicy` gives the new definition. -/
+theorem addPolicy_last_wins (t : PolicyTable) (p : Policy) (other : String) (ho : other ≠ p.name) :
+    AMap.lookup (addPolicy t p) p.name = some p ∧
+    AMap.lookup (addPolicy t p) other = AMap.lookup t other ∧
+    AMap.lookup (removePolicy t p.name) p.name = none ∧
+    AMap.lookup (addPolicy (removePolicy t p.name) p) p.name = some p := by
+  unfold addPolicy removePolicy
+  refine ⟨AMap.lookup_insert_self _ _ _, ?_, AMap.lookup_erase_self _ _, AMap.lookup_insert_self _ _ _⟩
+  rw [AMap.lookup_insert]; simp [ho]
+
 /-- `SetSubscriberPolicy` is `SetSubscriberQoS` with the values the name has in the policy table NOW. -/
 theorem setPolicy_eq (c : Ctl) (ip : Bytes) (name : String) (p : Policy) (h : AMap.lookup c.pols name = some p) :
     c.setPolicy ip name = (c.setQoS (p.qos ip), true) := by
